@@ -14,6 +14,7 @@ every path instead): totality/transitivity of `JV.cmp` on objects, the multi-ste
 import SuccinctlyVerif.Model.Jq
 import SuccinctlyVerif.Proof.JqOrder
 import SuccinctlyVerif.Proof.JqCodec
+import SuccinctlyVerif.Proof.JqPaths
 namespace SV.Props.C25
 open SV.Jq
 variable {N : Type} [NumOps N]
@@ -363,6 +364,31 @@ theorem to_from_entries (fs : List (String × JV N)) (h : NoDupKeys fs) : JV.mkO
   rw [foldl_insert_append [] fs (by simpa using h)]
   simp
 
+/-! ### path laws for every `p ∈ paths v` -/
+section pathlaws
+variable [LawfulNum N]
+
+/-- **`getpath_defined`**: every path of a duplicate-free value can be read. -/
+theorem getpath_defined (v : JV N) (hw : v.WF) (p : List (JV N)) (hp : p ∈ v.paths) :
+    ∃ w, v.getpath p = .ok w := SV.Jq.getpath_defined (paths_valid v hw p hp)
+
+/-- **`setpath_getpath_id`**: `setpath(p; getpath(p))` reproduces the value, for every `p ∈ paths v`. -/
+theorem setpath_getpath_id (v : JV N) (hw : v.WF) (p : List (JV N)) (hp : p ∈ v.paths) :
+    (v.getpath p).bind (fun w => v.setpath p w) = .ok v := SV.Jq.setpath_getpath_id (paths_valid v hw p hp)
+
+/-- **`getpath_setpath`**: `getpath(p)` after `setpath(p; x)` is `x`, for every `p ∈ paths v`. -/
+theorem getpath_setpath (v : JV N) (hw : v.WF) (p : List (JV N)) (hp : p ∈ v.paths) (x : JV N) :
+    (v.setpath p x).bind (fun v' => v'.getpath p) = .ok x := SV.Jq.getpath_setpath (paths_valid v hw p hp) x
+
+/-- **`setpath_frame`**: assignment to `p` changes exactly `p`: any other path `q ∈ paths v` that is
+neither a prefix nor an extension of `p` reads the same value afterwards. -/
+theorem setpath_frame (v : JV N) (hw : v.WF) (p q : List (JV N)) (hp : p ∈ v.paths) (hq : q ∈ v.paths)
+    (hinc : Incomparable p q) (x : JV N) :
+    (v.setpath p x).bind (fun v' => v'.getpath q) = v.getpath q :=
+  SV.Jq.setpath_frame (paths_valid v hw p hp) (paths_valid v hw q hq) hinc x
+
+end pathlaws
+
 /-! ### encoders / decoders -/
 
 /-- **`base64_round_trip`**: decoding the `@base64` text of any byte string gives the bytes back. -/
@@ -410,6 +436,11 @@ instance : LawfulNum Int where
   cmp_eq_iff a b := by simp [NumOps.cmp, Std.LawfulEqCmp.compare_eq_iff_eq]
   toInt_ofInt i := rfl
   ofInt_inj i j h := h
+  isNan_ofInt _ := rfl
+  floor_ofInt _ := rfl
+
+example : ([.str "a", JV.ofNat 0] : List (JV Int)) ∈ (JV.obj [("a", .arr [.null])] : JV Int).paths := by
+  simp [JV.paths, JV.pathsFrom, pathsObj, pathsArr]
 
 example : (JV.obj [("a", .num (1 : Int)), ("b", .arr [.null])] : JV Int).WF := by
   simp [JV.WF, wfF, wfL]
